@@ -97,7 +97,8 @@ Definition wit_tbl : objspec :=
 Definition wit_late_conf : list (synt * descr) := [(25, mkDescr (Some 24) FInherit None)].
 Definition wit_late_ops : list op := [ONewConf 0 false wit_late_conf; ORender wit_tbl (Some 0) false PNone 0 [1; 2]].
 
-(* an enum column whose two literals (1 and True) are equal in Python: same vkey *)
+(* an enum column whose two literals (1 and True) are equal in Python: same vkey.  Before the repair of
+   enum-cache-equal-keys the second one was printed with the cached cell of the first *)
 Definition wit_ft : list (Z * ftdef) := [(0, [(0, [(0, [(16, [49])])]); (1, [(0, [(12, [84])])])])].
 Definition wit_etbl (lit : Z) : objspec := mkObj table_cls [enum_cls] [[IEnum 0 enum_cls 0 lit 0]].
 Definition wit_alias_ops : list op := [ONewConf 0 false []; ORender (wit_etbl 0) (Some 0) false PNone 0 [1; 2]].
@@ -197,3 +198,62 @@ Proof.
 Qed.
 
 End Hist.
+
+(* ------------------------------------------------------------------ *)
+(* the class of an enum value under Python's == does not enter: the cell cache is keyed by the literal
+   (fix of enum-cache-equal-keys).  rekey f changes the vkey field of every enum item; nothing any
+   operation prints or does to the world depends on it. *)
+Definition rekey_item (f : Z -> Z) (it : item) : item :=
+  match it with IEnum ft K vkey lit modi => IEnum ft K (f vkey) lit modi | _ => it end.
+Definition rekey (f : Z -> Z) (o : objspec) : objspec :=
+  mkObj (o_cls o) (o_subs o) (map (map (rekey_item f)) (o_lines o)).
+
+Section Rekey.
+Variable ko : bool.
+Variable fts : list (Z * ftdef).
+Variable f : Z -> Z.
+
+Lemma render_item_rekey w cp it : render_item ko fts w cp (rekey_item f it) = render_item ko fts w cp it.
+Proof. destruct it as [[K|] a t|t|ft K vkey lit modi]; reflexivity. Qed.
+
+Lemma render_line_rekey l : forall w cp, render_line ko fts w cp (map (rekey_item f) l) = render_line ko fts w cp l.
+Proof.
+  induction l as [|it l IH]; intros w cp; cbn [map render_line]; [reflexivity|].
+  rewrite render_item_rekey. destruct (render_item ko fts w cp it) as [wc|e]; cbn [bind]; [|reflexivity].
+  rewrite IH. reflexivity.
+Qed.
+
+Lemma render_lines_rekey ls : forall w cp,
+  render_lines ko fts w cp (map (map (rekey_item f)) ls) = render_lines ko fts w cp ls.
+Proof.
+  induction ls as [|l ls IH]; intros w cp; cbn [map render_lines]; [reflexivity|].
+  rewrite render_line_rekey. destruct (render_line ko fts w cp l) as [wc|e]; cbn [bind]; [|reflexivity].
+  rewrite IH. reflexivity.
+Qed.
+
+Lemma gen_lines_rekey w cp o : gen_lines ko fts w cp (rekey f o) = gen_lines ko fts w cp o.
+Proof.
+  unfold gen_lines, rekey. cbn [o_subs o_lines]. destruct (touch_subs ko w cp (o_subs o)) as [w1|e]; cbn [bind]; [|reflexivity].
+  apply render_lines_rekey.
+Qed.
+
+Lemma consume_rekey w cp o mode : consume ko fts w cp (rekey f o) mode = consume ko fts w cp o mode.
+Proof.
+  unfold consume. rewrite gen_lines_rekey. destruct (gen_lines ko fts w cp o) as [[w1 ls]|e]; cbn [bind]; [|reflexivity].
+  destruct (mode =? 0); [reflexivity|]. destruct (mode =? 1); [reflexivity|]. rewrite gen_lines_rekey. reflexivity.
+Qed.
+
+Lemma step_rekey w o copt nc pa mode ids h :
+  step ko fts w (ORender (rekey f o) copt nc pa mode ids) = step ko fts w (ORender o copt nc pa mode ids) /\
+  step ko fts w (ONext h (rekey f o) ids) = step ko fts w (ONext h o ids) /\
+  step ko fts w (OWholeH h (rekey f o) mode ids) = step ko fts w (OWholeH h o mode ids).
+Proof.
+  split; [|split]; cbn [step].
+  - change (o_cls (rekey f o)) with (o_cls o).
+    destruct (mk_palette ko (set_oracle w ids) (o_cls o) pa copt nc) as [[w1 cp]|e]; cbn [bind]; [|reflexivity].
+    rewrite consume_rekey. reflexivity.
+  - destruct (zfind h (w_hcmds w)) as [cp|]; [|reflexivity]. rewrite gen_lines_rekey. reflexivity.
+  - destruct (zfind h (w_hcmds w)) as [cp|]; [|reflexivity]. rewrite consume_rekey. reflexivity.
+Qed.
+
+End Rekey.
